@@ -103,6 +103,13 @@ func newSvc(c *counters) *common.Svc {
 		Order: []string{"U", "CS", "SS", "BD"},
 		Unary: map[string]common.UnaryFn{"U": func(ctx context.Context, dec func(interface{}) error) (interface{}, error) {
 			cntFor(ctx, c).handler++
+			oc := specOfContext(ctx) // outcome directive (outcome.go), nil for most requests
+			if oc.setsTrailer() {
+				grpc.SetTrailer(ctx, outcomeTrailer)
+			}
+			if err := oc.startErr(); err != nil { // fails without looking at the request
+				return nil, err
+			}
 			in := new(gt.Message)
 			if err := dec(in); err != nil {
 				return nil, err
@@ -111,6 +118,9 @@ func newSvc(c *counters) *common.Svc {
 			grpc.SetTrailer(ctx, metadata.Join(echoed(ctx), mdFromMap(in.Trailers)))
 			if in.Code != 0 {
 				return nil, statusFrom(in)
+			}
+			if err := oc.endErr(); err != nil { // fails where it would have answered
+				return nil, err
 			}
 			// a handler that produces neither a response nor an error (what a generated
 			// handler hands on when the application returns (nil, nil)), resp. a bare nil
@@ -127,6 +137,13 @@ func newSvc(c *counters) *common.Svc {
 				cntFor(s.Context(), c).handler++
 				s.SetHeader(echoed(s.Context()))
 				s.SetTrailer(echoed(s.Context()))
+				oc := specOfContext(s.Context())
+				if oc.setsTrailer() {
+					s.SetTrailer(outcomeTrailer)
+				}
+				if err := oc.startErr(); err != nil { // fails without reading the request
+					return err
+				}
 				var n int32
 				var payload []byte
 				for {
@@ -149,12 +166,22 @@ func newSvc(c *counters) *common.Svc {
 					n++
 					payload = append(payload, m.Payload...)
 				}
-				return s.SendMsg(&gt.Message{Count: n, Payload: payload})
+				if err := s.SendMsg(&gt.Message{Count: n, Payload: payload}); err != nil {
+					return err
+				}
+				return oc.endErr()
 			}},
 			"SS": {ServerStreams: true, Fn: func(s grpc.ServerStream) error {
 				cntFor(s.Context(), c).handler++
 				s.SetHeader(echoed(s.Context()))
 				s.SetTrailer(echoed(s.Context()))
+				oc := specOfContext(s.Context())
+				if oc.setsTrailer() {
+					s.SetTrailer(outcomeTrailer)
+				}
+				if err := oc.startErr(); err != nil { // fails without reading the request
+					return err
+				}
 				m := new(gt.Message)
 				if err := s.RecvMsg(m); err != nil {
 					return err
@@ -167,12 +194,19 @@ func newSvc(c *counters) *common.Svc {
 				if m.Code != 0 { // fails after the data it was asked for (none when Count is 0)
 					return streamStatusFrom(m)
 				}
-				return nil
+				return oc.endErr()
 			}},
 			"BD": {ClientStreams: true, ServerStreams: true, Fn: func(s grpc.ServerStream) error {
 				cntFor(s.Context(), c).handler++
 				s.SetHeader(echoed(s.Context()))
 				s.SetTrailer(echoed(s.Context()))
+				oc := specOfContext(s.Context())
+				if oc.setsTrailer() {
+					s.SetTrailer(outcomeTrailer)
+				}
+				if err := oc.startErr(); err != nil { // fails without reading the request
+					return err
+				}
 				var all []*gt.Message
 				for {
 					m := new(gt.Message)
@@ -200,7 +234,7 @@ func newSvc(c *counters) *common.Svc {
 						return err
 					}
 				}
-				return nil
+				return oc.endErr()
 			}},
 		},
 	}
@@ -282,6 +316,12 @@ type request struct {
 
 // httpRequest builds the literal *http.Request.
 func (rq *request) httpRequest(ctx context.Context) *http.Request {
+	return rq.httpRequestOrd(ctx, 0)
+}
+
+// httpRequestOrd: the same request with the header map filled in the ord-th
+// order of its keys (outcome.go, "header-map order").
+func (rq *request) httpRequestOrd(ctx context.Context, ord int) *http.Request {
 	r := &http.Request{
 		Method: rq.Method, URL: &url.URL{Path: rq.Path}, Proto: "HTTP/1.1", ProtoMajor: 1, ProtoMinor: 1,
 		Header: http.Header{}, Body: io.NopCloser(bytes.NewReader(rq.Body)), ContentLength: int64(len(rq.Body)),
@@ -291,7 +331,7 @@ func (rq *request) httpRequest(ctx context.Context) *http.Request {
 	if rq.CTPresent {
 		r.Header["Content-Type"] = []string{rq.CT}
 	}
-	for _, kv := range rq.Hdr {
+	for _, kv := range orderedHeaders(rq.Hdr, ord) {
 		r.Header.Add(kv.K, kv.V)
 	}
 	return r
@@ -310,9 +350,11 @@ func panicText(p interface{}) string {
 }
 
 // do runs one request through the real handler tree on a recorder.
-func (e *env) do(rq *request) (o *observation) {
+func (e *env) do(rq *request) (o *observation) { return e.doOrd(rq, 0) }
+
+func (e *env) doOrd(rq *request, ord int) (o *observation) {
 	*e.cnt = counters{}
-	r := rq.httpRequest(context.Background())
+	r := rq.httpRequestOrd(context.Background(), ord)
 	rec := httptest.NewRecorder()
 	o = &observation{}
 	defer func() {
